@@ -73,12 +73,18 @@ DeadEv == /\ IsEv("dead")
           /\ stat' = [stat EXCEPT !.dead = @ + 1]
           /\ UNCHANGED <<cur, ver, cfg, memo>>
 
+\* a data race reported by the Go race detector inside the engine while this scenario ran (C12):
+\* no action of the specification accepts it
+RaceEv == /\ IsEv("race")
+          /\ viol' = viol \cup {<<cur.id, "RaceFree", Trace[l].where>>}
+          /\ UNCHANGED <<cur, ver, cfg, memo, stat>>
+
 SkipEv == /\ IsEv("skip") /\ stat' = [stat EXCEPT !.skipped = @ + 1] /\ UNCHANGED <<cur, ver, cfg, memo, viol>>
 
-OtherEv == /\ l <= Len(Trace) /\ Trace[l].ev \notin {"sc", "cfg", "data", "obs", "snap", "dead", "skip"}
+OtherEv == /\ l <= Len(Trace) /\ Trace[l].ev \notin {"sc", "cfg", "data", "obs", "snap", "dead", "skip", "race"}
            /\ l' = l + 1 /\ UNCHANGED <<cur, ver, cfg, memo, viol, stat>>
 
-Next == Header \/ Vary \/ AppendData \/ Observe \/ Snap \/ DeadEv \/ SkipEv \/ OtherEv
+Next == Header \/ Vary \/ AppendData \/ Observe \/ Snap \/ DeadEv \/ RaceEv \/ SkipEv \/ OtherEv
 Spec == Init /\ [][Next]_vars
 
 Done == l = Len(Trace) + 1 =>
